@@ -125,6 +125,7 @@ CANARIES = {
         ("copy-removed", "stix2/properties.py", "unwrap-copy", ["ExtensionsProperty.clean", "copy.deepcopy"], "C13.no-param-mutation"),
         ("setattr-guard-inverted", "stix2/base.py", "negate-if", ["_STIXBase.__setattr__"], "C13.immutable-api"),
         ("underscore-properties-assignable", "stix2/base.py", "text", ['        if not name.startswith("_") or \\\n                name in self.__dict__.get("_inner", ()):', '        if not name.startswith("_"):'], "C13.immutable-api"),
+        ("shared-default-factory", "stix2/environment.py", "text", ["def __init__(self, factory=None, store=None, source=None, sink=None):", "def __init__(self, factory=ObjectFactory(), store=None, source=None, sink=None):"], "C13.history-independence"),
     ],
     "C14": [
         ("version-positional", "stix2/datastore/memory.py", "kw-to-positional", ["_add", "version=version", "parse("], "C14.binding"),
